@@ -54,6 +54,7 @@ class Ctx:
         from .world import crash_periods
         self.crash_periods = set(crash_periods(sc)) if (any(r.get("at_crash") for r in sc.get("reconfig", ())) or sc.get("interventions")) else set()
         self.applied = set()
+        self.cur_coeffs = {}
         self.intervention_late = False
 
     def log(self, item):
@@ -228,7 +229,11 @@ class Ctx:
             network.magnitudes = new_
             self.fired("reconfig_limits_vector_assigned")
         else:
-            network.update_constraint(r["name"], sut.Current(dict(c["coeffs"])), r["limit"])
+            co_ = r["coeffs"] if r.get("coeffs") is not None else self.cur_coeffs.get(r["name"], c["coeffs"])
+            network.update_constraint(r["name"], sut.Current(dict(co_)), r["limit"])
+            self.cur_coeffs[r["name"]] = dict(co_)
+            if r.get("coeffs") is not None:
+                self.fired("reconfig_rewired")
         self.fired("reconfig")
         self.events.append(("reconfig", r["t"], r["name"], r["limit"]))
 
